@@ -23,7 +23,7 @@ EXTENDS Naturals, Sequences, FiniteSets, TLC, Json
 CONSTANTS MAX,        \* frame payload limit (model scale, >= 3)
           MaxWrites,  \* bound on Write calls of a script
           MaxInj,     \* bound on injected foreign / unknown frames
-          InjKinds,   \* injected frame kinds explored: subset of {"fd","fds","fe","fes","unk"}
+          InjKinds,   \* injected frame kinds explored: subset of AllInjKinds
           RSizes,     \* caller read-buffer size classes explored: subset of {"one","small","big"}
           Gen,        \* TRUE: generation mode (scripts only, history kept); FALSE: exhaustive check
           Emit        \* TRUE: print behaviours
@@ -48,10 +48,18 @@ RSize(r) == CASE r = "one" -> 1 [] r = "small" -> 2 [] r = "big" -> MAX + 1
 Min(a, b) == IF a < b THEN a ELSE b
 
 \* ---- tunnel ids -------------------------------------------------------------------------
-Own    == <<"P", "a">>
-Diff   == <<"Q", "a">>     \* differs inside the first 16 bytes
-Same16 == <<"P", "b">>     \* same first 16 bytes, differs afterwards
-Hdr(id) == id[1]           \* what frame.go puts on the wire
+\* An id is <<head, tail, rest>>: head = the bytes of the 16-byte header field before its first
+\* 0x00 byte, tail = the remainder of the 16-byte field (from that NUL on), rest = what the id
+\* string has beyond 16 bytes.  Ids need not be printable: binary / UUID-style ids, the all-zero
+\* id of the control-plane frames and zero-padded short ids all have a NUL inside the field.
+\* The code compares the whole 16-byte field, Hdr(id) = <<head, tail>>: ids that agree only up
+\* to their first NUL (DiffNul) are different tunnels for the code as well; ids that agree on
+\* all 16 bytes (Same16) are the known collision.
+Own     == <<"P", "x", "a">>
+Diff    == <<"Q", "x", "a">>     \* differs before any NUL
+DiffNul == <<"P", "y", "a">>     \* same up to the first NUL, differs after it inside the 16 bytes
+Same16  == <<"P", "x", "b">>     \* same 16 bytes, differs afterwards
+Hdr(id) == <<id[1], id[2]>>      \* what frame.go puts on the wire and stream.go compares
 
 \* ---- frames -----------------------------------------------------------------------------
 Frame(id, ty, off, len) == [id |-> id, ty |-> ty, off |-> off, len |-> len]
@@ -59,9 +67,11 @@ NoBuf == Frame(Own, "none", 0, 0)
 
 \* injected frame kinds: foreign data / foreign EOF (other prefix or colliding prefix), and a
 \* frame of our own tunnel with a type FrameStream.Read has no case for
-AllInjKinds == {"fd", "fds", "fe", "fes", "unk"}
+AllInjKinds == {"fd", "fdn", "fds", "fe", "fen", "fes", "unk"}
 ASSUME InjKinds \subseteq AllInjKinds
 InjFrame(k) == CASE k = "fd"  -> Frame(Diff,   "data", 0, 1)
+                 [] k = "fdn" -> Frame(DiffNul, "data", 0, 1)
+                 [] k = "fen" -> Frame(DiffNul, "eof",  0, 0)
                  [] k = "fds" -> Frame(Same16, "data", 0, 1)
                  [] k = "fe"  -> Frame(Diff,   "eof",  0, 0)
                  [] k = "fes" -> Frame(Same16, "eof",  0, 0)
